@@ -73,8 +73,41 @@ def _check_compiled(kinds):
         try:
             MODES[pat] = rx.call_mode(obj.from_chart_line.__func__)
         except rx.Unsupported:
-            bad.append(k + ":mode")
+            # the method call is not in from_chart_line itself (e.g. moved into a helper): observe it
+            m = _observed_mode(obj)
+            if m is None:
+                bad.append(k + ":mode")
+            else:
+                MODES[pat] = m
     return bad
+
+
+def _observed_mode(cls):
+    """Which re method from_chart_line applies to cls._regex_prog, observed on a probe call through a
+    recording proxy of the compiled pattern (used when the live AST does not show it)."""
+    real = cls._regex_prog
+    seen = []
+
+    class Spy:
+        pattern, flags, groups = real.pattern, real.flags, real.groups
+
+        def __getattr__(self, name):
+            if name in ("match", "search", "fullmatch", "findall", "finditer", "split", "sub"):
+                seen.append(name)
+            return getattr(real, name)
+    try:
+        cls._regex_prog = Spy()
+        for probe in ("probe line", "  0 = N 0 0", "  0 = B 1", '  0 = E "x"'):
+            try:
+                cls.from_chart_line(probe)
+            except Exception:  # noqa: BLE001 - only the recorded method matters
+                pass
+    finally:
+        cls._regex_prog = real
+    kinds = set(seen)
+    if len(kinds) == 1 and seen[0] in ("match", "search", "fullmatch"):
+        return seen[0]
+    return None
 
 
 # ------------------------------------------------------------------------------------------------
